@@ -1,9 +1,13 @@
 (* C07 — Sorter output equals sort-and-merge of all inserts, whatever the configuration.
-   Statements only.  Proved so far on the executable model: the in-memory sort used by write_chunk is
-   a sorted permutation of the pending entries.  The independence of the output from where spills
-   and chunk merges happen (chunks_merge / merge_of_merges) is proved on the abstract model of
-   design-notes/SorterMerge_probe.v and validated here on every generated case through all three
-   output paths, both sort algorithms, sequential and parallel sorting. *)
+   Statements only.  C07_sorter (at the end) is the statement on the executable transcription of
+   sorter.rs (buffer bookkeeping deciding when to spill, write_chunk = stable sort + group + one
+   merge call per key, merge_chunks when the chunk count reaches the maximum, final flush and merge):
+   for a merge function that is a pure function of (key, values) obeying the flattening law, whatever
+   the configuration — hence wherever spills and chunk merges fall — a run that finishes returns
+   exactly the specification's output, whose keys are the strictly ascending distinct inserted keys
+   and whose values are the merge of each key's values in insertion order (C07_spec).  The unstable
+   and the rayon-parallel sort are not modelled (the model sorts stably); they are compared with the
+   model on every generated case under a commutative merge function. *)
 From Coq Require Import Sorting.Permutation.
 From Grenad.model Require Import Base Merger Sorter.
 From Grenad.proofs Require Import SpecProofs.
@@ -21,3 +25,41 @@ Example C07_example :
     [([2], [1]); ([1], [2]); ([2], [3]); ([1], [4]); ([3], [5]); ([2], [6]); ([1], [7])]
   = sorter_spec mf_concat [([2], [1]); ([1], [2]); ([2], [3]); ([1], [4]); ([3], [5]); ([2], [6]); ([1], [7])].
 Proof. vm_compute. reflexivity. Qed.
+
+(* ================= the full statement ================= *)
+From Coq Require Import Sorted.
+From Grenad.proofs Require Import SortedFacts MergeRefine SorterRefine.
+
+Theorem C07_sorter : forall (f : bytes -> list bytes -> bytes) (mf : mergefn),
+  (forall ord k vs, mf ord k vs = Done (f k vs)) ->
+  (forall k vss, vss <> [] -> Forall (fun vs => vs <> []) vss -> f k (map (f k) vss) = f k (concat vss)) ->
+  forall c ins out, sorter_run c mf ins = Done out -> sorter_spec mf ins = Done out.
+Proof. exact sorter_run_spec. Qed.
+Print Assumptions C07_sorter.
+
+(* the specification's output: strictly ascending keys, exactly the inserted keys, each with the merge
+   of its values in insertion order (val_in k ins = the values inserted under k, in order) *)
+Theorem C07_spec : forall (f : bytes -> list bytes -> bytes) (mf : mergefn),
+  (forall ord k vs, mf ord k vs = Done (f k vs)) ->
+  forall ins, exists out, sorter_spec mf ins = Done out /\
+    StronglySorted blt (map fst out) /\
+    (forall k, In k (map fst out) <-> In k (map fst ins)) /\
+    (forall k v, In (k, v) out -> v = f k (val_in k ins)).
+Proof. intros f mf Hp ins. exact (sorter_spec_canon f mf Hp ins). Qed.
+Print Assumptions C07_spec.
+
+(* merging chunks that are canonical merges of segments gives the canonical merge of the concatenated
+   segments: chunk merges are invisible *)
+Theorem C07_chunk_merge_invisible : forall (f : bytes -> list bytes -> bytes) (mf : mergefn),
+  (forall ord k vs, mf ord k vs = Done (f k vs)) ->
+  (forall k vss, vss <> [] -> Forall (fun vs => vs <> []) vss -> f k (map (f k) vss) = f k (concat vss)) ->
+  forall segs chunks calls, Forall2 (canon f) segs chunks ->
+  exists out, merge_run mf calls chunks = Done (out, calls + len out) /\ canon f (concat segs) out.
+Proof. exact merge_canon. Qed.
+Print Assumptions C07_chunk_merge_invisible.
+
+(* the flattening law is satisfiable: concatenation of the values (the merge function of the examples
+   and of the correspondence) obeys it *)
+Example C07_concat_obeys_the_law : forall (k : bytes) (vss : list (list bytes)),
+  (fun (_ : bytes) vs => concat vs) k (map ((fun (_ : bytes) vs => concat vs) k) vss) = (fun (_ : bytes) vs => concat vs) k (concat vss).
+Proof. intros k vss. cbn beta. induction vss as [|vs vss IH]; [reflexivity|]. cbn [map concat]. rewrite concat_app, IH. reflexivity. Qed.
